@@ -29,7 +29,9 @@ def budget(tier):
 
 
 def strategy(tier):
-    return scenario(P_MAIN)
+    from bvt.props._scen import mixed
+
+    return mixed(scenario(P_MAIN), tier, ID)
 
 
 def nontrivial(F):
